@@ -52,6 +52,14 @@ def run_property(prop, tier, seed, configs=None, repo=None, selftest=True):
         if os.environ.get("RPX_FACTS_EPHEMERAL"):
             import shutil
             shutil.rmtree(fdir, ignore_errors=True)
+        produced = []
+        _orig_finding = chk.finding
+
+        def _rec(*a, **k):
+            f_ = _orig_finding(*a, **k)
+            produced.append(f_.key)
+            return f_
+        chk.finding = _rec
         try:
             mod.run(chk, prog)
         except AnchorMissing as e:
@@ -60,6 +68,32 @@ def run_property(prop, tier, seed, configs=None, repo=None, selftest=True):
             tb = traceback.format_exc()
             sys.stderr.write(tb)
             chk.anchor_missing("engine-error", type(e).__name__, "rule evaluation crashed (%s: %s); failing closed" % (type(e).__name__, e))
+        chk.finding = _orig_finding
+        if tier == "thorough" and selftest and not os.environ.get("RPX_FORCE_DESUGAR") and os.path.isdir(fdir):
+            # engine self-check: the verdict must not depend on whether combinator chains were rewritten into control flow (they are
+            # only rewritten in functions that differ from the reference inventory): evaluate once more with every function rewritten
+            mine = set(produced)
+            os.environ["RPX_FORCE_DESUGAR"] = "1"
+            try:
+                prog2 = Program(fdir)
+                prog2.features = CONFIG_FEATURES[cfg]
+                prog2.config = cfg
+                chk2 = Check(prop, tier, seed)
+                chk2.config = cfg
+                try:
+                    mod.run(chk2, prog2)
+                    theirs = set(f.key for f in chk2.findings)
+                except Exception as e:
+                    theirs = {"crash:%s" % type(e).__name__}
+            finally:
+                os.environ.pop("RPX_FORCE_DESUGAR", None)
+            same = mine == theirs
+            chk.analysed[cfg]["verdict_independent_of_combinator_rewriting"] = \
+                "%s (%d functions rewritten for the comparison)" % ("yes" if same else "NO", len(getattr(prog2, "desugared", [])))
+            if not same:
+                chk.anchor_missing("engine-selfcheck", "desugar-invariance/%s" % cfg,
+                                   "the findings change when every combinator chain is rewritten into control flow (only with: %s; only without: %s): "
+                                   "a rule depends on a spelling; failing closed" % (sorted(theirs - mine)[:3], sorted(mine - theirs)[:3]))
     if tier == "thorough" and selftest:
         try:
             from engine import selftest as st
